@@ -3581,12 +3581,17 @@ class State:
 
             if not self.card_burning_status:
                 if Automation.HOLE_DEALING in self.automations:
-                    while any(self.hole_dealing_statuses):
+                    while (
+                            any(self.hole_dealing_statuses)
+                            and not self.card_burning_status
+                    ):
                         self.deal_hole()
 
                 if (
                         Automation.BOARD_DEALING in self.automations
                         and any(self.board_dealing_counts)
+                        and not self.card_burning_status
+                        and not any(self.standing_pat_or_discarding_statuses)
                 ):
                     self.deal_board()
 
